@@ -1,11 +1,11 @@
 (* Extraction of the executable models. ExtrOcamlBasic only: Z/positive/nat stay inductive. *)
 From MVGen Require Import JsTables_gen Tables_gen.
-From MV Require Import Base.MvBytes Num.NumModel Json.JsonModel Json.JsonSpec Dispatch.DispatchModel DataUri.DataUriModel Stream.StreamModel Buf.BufModel Cli.CliModel Cli.ConcatModel Stream.StreamHttp Xml.XmlModel Base.Ws Js.RenameModel Svg.PathSep Js.PrintModel Js.PrintGen Js.RewriteModel Css.CssBox Css.CssColor Html.HtmlAttr Html.HtmlWs Html.HtmlWsWf Html.HtmlEmbed Html.HtmlSelect Html.HtmlAttrLoop Js.StmtModel Js.StmtPrint Js.StmtParse Js.NumLit Js.StrLit Js.StrLitSpec Css.CssDim Cli.GlobModel Js.PrintRender Js.StmtRender Js.StmtRenderProofs Js.StmtRenderClosed Cli.PathModel.
+From MV Require Import Base.MvBytes Num.NumModel Json.JsonModel Json.JsonSpec Dispatch.DispatchModel DataUri.DataUriModel Stream.StreamModel Buf.BufModel Cli.CliModel Cli.ConcatModel Stream.StreamHttp Xml.XmlModel Base.Ws Js.RenameModel Svg.PathSep Js.PrintModel Js.PrintGen Js.RewriteModel Css.CssBox Css.CssColor Html.HtmlAttr Html.HtmlWs Html.HtmlWsWf Html.HtmlEmbed Html.HtmlSelect Html.HtmlAttrLoop Js.StmtModel Js.StmtPrint Js.StmtParse Js.NumLit Js.StrLit Js.StrLitSpec Css.CssDim Cli.GlobModel Js.PrintRender Js.StmtRender Js.StmtRenderProofs Js.StmtRenderClosed Cli.PathModel Json.JsonParse.
 Require Extraction.
 Require Import ExtrOcamlBasic.
 Extraction Language OCaml.
 Separate Extraction number0 decimal0 valid_number valid_decimal
-  json_minify_events events_of
+  json_minify_events events_of parse_events
   reg_step reg_init served match_q mediatype
   needs_escape b64_encode datauri_encode mediatype_min
   entry_minify entry_reader entry_writer entry_bytes
